@@ -41,6 +41,17 @@ class Q(P):
     pass
 
 
+@dataclass(eq=False, repr=False)
+class PE(P):
+    """value equality: two instances with the same a and b are equal (and hash alike) but are distinct objects"""
+
+    def __eq__(self, other):
+        return isinstance(other, PE) and (self.a, self.b) == (other.a, other.b)
+
+    def __hash__(self):
+        return hash((self.a, self.b))
+
+
 @dataclass(eq=False)
 class V:
     """Instances of this class are inferred by rule queries."""
